@@ -172,9 +172,10 @@ def write_file(cells_list, delim, header):
             w = csv.writer(f, delimiter=';' if delim == ';' else ',')
             for l in lines:
                 w.writerow(l)
-        elif delim == 'tab':
+        elif delim in ('tab', '\t', '|'):
+            ch = '|' if delim == '|' else '\t'
             for l in lines:
-                f.write('\t'.join(l) + '\n')
+                f.write(ch.join(l) + '\n')
     return path
 
 
@@ -185,7 +186,9 @@ def view(txns):
 def check_file(idx, fi, delim, header, sep='.'):
     fmt, template = FORMATS[fi]
     cells_list = [ROWS[i] for i in idx]
-    if delim == 'tab' and any('\t' in c for r in cells_list for c in r):
+    if delim in ('tab', '\t') and any('\t' in c for r in cells_list for c in r):
+        return
+    if delim == '|' and any('|' in c for r in cells_list for c in r):
         return
     w = {'fn': 'parse_generic_csv', 'rows': list(idx), 'format': fi, 'delimiter': delim, 'has_header': header}
     O.case(('file', tuple(idx), fi, delim, header))
@@ -252,8 +255,10 @@ def main():
         combos += [list(range(n)), list(reversed(range(n))), [0, 11, 1, 12, 2, 4, 3, 8, 13]]
         for idx in combos:
             for fi in range(len(FORMATS)):
-                for delim, header in ((None, True), (None, False), ('tab', True), (';', True)):
+                for delim, header in ((None, True), (None, False), ('tab', True), (';', True), ('\t', True), ('|', False)):
                     if len(idx) == 2 and (delim, header) != (None, True) and O.tier == 'quick':
+                        continue
+                    if delim in ('\t', '|') and len(idx) > 1 and O.tier == 'quick':
                         continue
                     check_file(idx, fi, delim, header)
         # european decimal separator
